@@ -23,7 +23,7 @@ def setup(ctx):
         "classes, queries, titan with size/mime/token, lengths up to exactly 1024 incl. CRLF), 1/3 systematic "
         "corruptions (other/missing scheme, no host, userinfo, fragment, bad port, controls, invalid UTF-8, lengths "
         "1019..1030 with/without CRLF, titan size defects), 1/3 unconstrained bytes; each with uploads enabled and "
-        "disabled. Oracle = independent recogniser (accept / reject / undecided). distinct = (class label, verdict, "
+        "disabled; plus, through both real TLS layers, a refused line followed by a valid request in the next TLS record of the same read (the PyOpenSSL pump keeps delivering records after a close). Oracle = independent recogniser (accept / reject / undecided). distinct = (class label, verdict, "
         "observed status, who was invoked); every case is non-trivial except the plain canonical URL."
     )
     ctx.assumptions = [
@@ -36,6 +36,7 @@ def setup(ctx):
     ctx.require("monitor", "handler_entries", 100)
     ctx.require("monitor", "upload_entries", 10)
     ctx.require("monitor", "incomplete_lines_checked", 50)
+    ctx.require("monitor", "after_refusal_connections", 100)
 
 
 def run_line(data: bytes, uploads: bool, cuts=()):
@@ -192,7 +193,82 @@ def gen_accept(rng):
     return line.encode() + b"\r\n" + bytesgen.content_bytes(rng, size), "gen-titan"
 
 
+def run_l2_after_refusal(ctx):
+    """A refused request line followed by a valid one on the same connection: the PyOpenSSL pump hands
+    every TLS record of one TCP read to the protocol, also after the protocol has closed; the stdlib layer
+    coalesces them into one read.  Nothing after the refused line may be dispatched."""
+    from nauyaca.server.protocol import GeminiServerProtocol
+
+    from vf import tlsbench
+
+    rng = ctx.rng("after-refusal")
+    firsts = [
+        (b"gemini://example.org/" + b"a" * 1100 + b"\r\n", "too-long"),
+        (b"x" * 1500 + b"\r\n", "too-long-garbage"),
+        (b"gemini://example.org/\xff\xfe\r\n", "invalid-utf8"),
+        (b"http://example.org/\r\n", "other-scheme"),
+        (b"gemini://user@example.org/\r\n", "userinfo"),
+        (b"gemini://example.org/x#frag\r\n", "fragment"),
+        (b"gemini:///nohost\r\n", "missing-host"),
+        (b"titan://example.org/x;size=abc\r\n", "titan-junk-size"),
+        (b"titan://example.org/x\r\n", "titan-no-params"),
+        (b"x" * 1500, "too-long-no-crlf"),
+    ]
+    seconds = [b"gemini://example.org/after-refusal\r\n", b"titan://example.org/up;size=2\r\nhi", b"\r\ngemini://example.org/after-refusal\r\n"]
+    k = 0
+    for first, reason in firsts:
+        for second in seconds:
+            for backend in ("pyopenssl", "stdlib"):
+                for uploads in (True, False):
+                    for shape in ("two-records-one-read", "three-records-one-read", "coalesced-with-finished", "separate-reads"):
+                        k += 1
+                        if not ctx.mine(k):
+                            continue
+                        if ctx.quick() and k % 2 and shape != "two-records-one-read":
+                            continue
+                        log = []
+                        loop = new_loop()
+                        try:
+                            h = SpyHandler({"mode": "sync", "outcome": "value", "status": 20, "meta": "text/gemini", "body": "ok"}, log, loop)
+                            mw = SpyMiddleware({"outcome": "allow"}, log, loop)
+                            up = SpyUpload({"outcome": "value", "status": 20, "meta": "text/gemini", "body": "stored"}, log, loop) if uploads else None
+                            bench = tlsbench.Sandwich(loop, lambda: GeminiServerProtocol(h, mw, up), backend=backend, log=log)
+                            pieces = [first, second] if shape != "three-records-one-read" else [first, second[:5], second[5:]]
+                            if shape == "coalesced-with-finished":
+                                ok = bench.handshake(coalesce_with=pieces)
+                            else:
+                                ok = bench.handshake()
+                                if ok and shape == "separate-reads":
+                                    for pc in pieces:
+                                        bench.client_send(pc)
+                                elif ok:
+                                    bench.client_send_records(pieces)
+                            if not ok:
+                                ctx.inconclusive_because(f"L2 handshake failed: {bench.error}")
+                                continue
+                            bench.finish()
+                            stream = bytes(bench.client_plain)
+                            invoked = ("H" if h.calls else "") + ("M" if mw.calls else "") + ("U" if up and up.calls else "")
+                            ctx.count("monitor", "after_refusal_connections")
+                            is_titan_first = first.startswith(b"titan://")
+                            wit = {"level": "L2", "backend": backend, "uploads_enabled": uploads, "shape": shape, "first_line": first[:80], "reason": reason, "then": second,
+                                   "observed": {"stream": stream[:120], "handler": [c.raw_url for c in h.calls], "upload": [c["raw_url"] for c in (up.calls if up else [])]}}
+                            if invoked:
+                                ctx.violation(f"invalid-reached-handler:after-refusal:{reason}:backend={backend}:invoked={invoked}",
+                                              f"bytes following a refused request line ({reason}) were dispatched to {invoked}", wit)
+                            else:
+                                exp = {59} if not (is_titan_first and not uploads) else {50, 59}
+                                st = int(stream[:2]) if stream[:2].isdigit() else None
+                                if st not in exp or stream.count(b"\r\n") != 1:
+                                    ctx.violation(f"invalid-wrong-status:after-refusal:{reason}:backend={backend}", f"expected exactly one refusal {sorted(exp)}, client got {stream[:60]!r}", wit)
+                            ctx.case(("after-refusal", reason, second[:5], backend, uploads, shape, invoked), True,
+                                     sample={"level": "L2", "backend": backend, "reason": reason, "shape": shape, "stream": stream[:40], "invoked": invoked})
+                        finally:
+                            close_loop(loop)
+
+
 def run(ctx):
+    run_l2_after_refusal(ctx)
     rng = ctx.rng("lines")
     n = ctx.pick(36000, 1000000) // ctx.nshards
     fixed_incomplete = [b"gemini://example.org/\n", b"gemini://example.org/\r", b"gemini://example.org/", b"gemini://example.org/\n\n", b"titan://example.org/x;size=1\nA",
